@@ -164,6 +164,20 @@ class C15:
                                 "own_pkg": True, "pkg_deps": ["verif/base"]},
                                {"dir": "buildpacks/other", "id": "verif/other", "pkg": "pother", "bins": ["pother"], "extra": "", "aux": []}],
                       "comps": [], "foreign": [], "cwd": "buildpacks/web", "release": False, "pkgdir": "default", "seed_ids": [], "seed_kind": 0})
+        # designed: a libcnb.rs buildpack that depends (through its own package.toml) on a composite which depends on
+        # another libcnb.rs buildpack: dependencies first, whatever kind they are
+        for cwd in ("", "buildpacks/k"):
+            cases.append({"libs": [{"dir": "buildpacks/leaf", "id": "verif/leaf", "pkg": "pleaf", "bins": ["pleaf"], "extra": "", "aux": []},
+                                   {"dir": "buildpacks/k", "id": "verif/k", "pkg": "pk", "bins": ["pk"], "extra": "", "aux": [],
+                                    "own_pkg": True, "pkg_deps": ["verif/m"]}],
+                          "comps": [{"dir": "meta/m", "id": "verif/m", "deps": [["lib", "verif/leaf"]], "uri": ".", "os": None}],
+                          "foreign": [], "cwd": cwd, "release": False, "pkgdir": "default", "seed_ids": [], "seed_kind": 0})
+        # designed: ids with more than one slash, one of them extending another buildpack's id (acme/tools/ruby next to
+        # acme/tools): every id has its own flat output directory
+        cases.append({"libs": [{"dir": "buildpacks/plain", "id": "acme/plain", "pkg": "pplain", "bins": ["pplain"], "extra": "", "aux": []},
+                               {"dir": "buildpacks/ruby", "id": "acme/tools/ruby", "pkg": "pruby", "bins": ["pruby"], "extra": "", "aux": []}],
+                      "comps": [{"dir": "meta/tools", "id": "acme/tools", "deps": [["lib", "acme/tools/ruby"]], "uri": ".", "os": None}],
+                      "foreign": [], "cwd": "", "release": False, "pkgdir": "default", "seed_ids": [], "seed_kind": 0})
         # designed: a composite whose directory is a symbolic link, packaged with everything else from the workspace root
         cases.append({"libs": [{"dir": "buildpacks/alpha", "id": "verif/alpha", "pkg": "palpha", "bins": ["palpha"], "extra": "", "aux": []}],
                       "comps": [{"dir": "meta/linked", "id": "verif/linked", "deps": [["lib", "verif/alpha"], ["uri", "docker://reg/img:1"]],
@@ -325,7 +339,9 @@ class C15:
                     if k not in (TARGET, rel_base)
                     and not any(k == f"{rel_base}/{os.path.basename(d)}" or k.startswith(f"{rel_base}/{os.path.basename(d)}/") for d, _ in changed)}
         untouched = untouched and rest(before_pkg) == rest(after_pkg)
-        out = {"id": c["id"], "exit": p.returncode, "stdout": p.stdout.decode().splitlines(), "stderr": p.stderr.decode()[-600:],
+        import re
+        order = re.findall(r"\[\d+/\d+\] Building (\S+) \(", p.stderr.decode("utf-8", "replace"))
+        out = {"id": c["id"], "exit": p.returncode, "stdout": p.stdout.decode().splitlines(), "stderr": p.stderr.decode()[-600:], "order": order,
                "dirs": changed, "untouched": untouched, "root": root, "pkgdir": pkgdir, "cwd": cwd}
         shutil.rmtree(base, ignore_errors=True)
         return out
@@ -364,8 +380,8 @@ class C15:
                     e = f"({r[1]} {cq_bytes(r[2].encode('latin-1', 'replace'))})"
                 rs.append(f"({B(r[0])}, {e})")
             dirs.append(f"({B(d)}, {cq_list(rs)})")
-        return "(mkCase %s %s %s %s %s %s %s)" % (cq_list(ws), inv, B(o["root"]), cq_bool(o["exit"] == 0), cq_list([B(x) for x in o["stdout"]]),
-                                                  cq_list(dirs), cq_bool(o["untouched"]))
+        return "(mkCase %s %s %s %s %s %s %s %s)" % (cq_list(ws), inv, B(o["root"]), cq_bool(o["exit"] == 0), cq_list([B(x) for x in o["stdout"]]),
+                                                  cq_list(dirs), cq_bool(o["untouched"]), cq_list([B(x) for x in o.get("order", [])]))
 
     def nontrivial(self, c, o):
         return o["exit"] != 0 or bool(c["seed_ids"])
